@@ -188,6 +188,8 @@ type world struct {
 	rpc    *pathServers
 	qi     time.Duration
 	faulty bool
+	// byz: path servers may also return authentic segments nobody asked for (campaign byz only)
+	byz bool
 	// instants at which a non-empty reply was processed (next-query times are derived from them with jitter)
 	fetchInstants []time.Time
 	lookups       int
@@ -394,7 +396,7 @@ func (w *world) drawPlan() map[seg.Type]*faultPlan {
 		case 6:
 			p.stale = true
 		case 7:
-			p.extra = true
+			p.extra = w.byz
 		}
 	}
 	return plan
@@ -594,12 +596,13 @@ func (w *world) revInsert() {
 	}
 }
 
-func run(r *core.Run, faulty bool) {
+func run(r *core.Run, faulty, byz bool) {
 	core.Bubble(r, func(t *testing.T) {
 		// start two hours into the bubble's epoch so that segment timestamps in the past are unremarkable
 		time.Sleep(2 * time.Hour)
 		align()
 		w := newWorld(r, faulty)
+		w.byz = byz
 		defer w.pathDB.Close()
 		r.Logf("topology: %s", w.tp.describe())
 		r.Logf("local %s core=%v, %d walks, query interval %v", w.local.ia, w.local.core, len(w.walks), w.qi)
@@ -661,5 +664,9 @@ func run(r *core.Run, faulty bool) {
 	})
 }
 
-func runClean(r *core.Run)  { run(r, false) }
-func runFaulty(r *core.Run) { run(r, true) }
+func runClean(r *core.Run)  { run(r, false, false) }
+func runFaulty(r *core.Run) { run(r, true, false) }
+
+// runByz = faulty plus path servers that return authentic segments nobody asked for (fetch.extra). Not part
+// of the claimed campaigns: see the report (wildcard destinations trust whatever core segments come back).
+func runByz(r *core.Run) { run(r, true, true) }
